@@ -65,6 +65,17 @@ Theorem C15_progress : forall acts p st r,
   exists a st', is_fwd a = true /\ step st a = Some st'.
 Proof. exact progress. Qed.
 
+(** No lost wake-up at a receiver: [rsidx] is the index of the value that was current when the
+    receiver last marked a version seen (creation, clone, [borrow_and_update], [changed()] = Ok).
+    Whenever its cell holds a value with another index, a poll of [changed()] answers Ok -- for all
+    action lists, faults included.  With [C15_latest]: at quiescence every live receiver has either
+    marked the last value seen or is woken by [changed()] and reads it with [borrow_and_update]. *)
+Theorem C15_no_lost_wakeup : forall acts p st r,
+  run acts (init p) = Some st -> (r < nrcv st)%nat ->
+  rsidx (rcvs st r) <> fst (cval (cells st (rcell (rcvs st r)))) ->
+  changed_res st r = ChOk.
+Proof. exact no_lost_wakeup. Qed.
+
 (** The quiescence barrier of the big-step runner compared with the implementation
     ([Run/RunWatch.v]) is a fault-free list of small steps. *)
 Theorem C15_big_steps_sound : forall fuel st,
@@ -95,4 +106,5 @@ Print Assumptions C15_monotone.
 Print Assumptions C15_latest.
 Print Assumptions C15_latest_after_drop.
 Print Assumptions C15_progress.
+Print Assumptions C15_no_lost_wakeup.
 Print Assumptions C15_big_steps_sound.
